@@ -230,6 +230,40 @@ fn args_part(nat: &mut NativeEnv, ctx: &WorkerCtx, rep: &mut Report) {
                 rep.count("argument_tuples_ok", 1);
             }
         }
+        // decimal arguments written with leading zeros and an explicit sign (the contract is base ten)
+        if arity >= 1 && heap.is_none() {
+            for (spelled, value) in [("010", 10i64), ("-017", -17), ("09", 9), ("000123", 123), ("+5", 5), ("00", 0), ("-0", 0), ("0100", 100)] {
+                idx += 1;
+                if !ctx.mine(idx) {
+                    continue;
+                }
+                rep.count("cases", 1);
+                rep.count("evaluations", 1);
+                rep.distinct.push(hash64(&("spelled", arity, spelled)));
+                let mut args: Vec<String> = vec![spelled.to_string()];
+                let mut vals_t: Vec<i64> = vec![value];
+                for i in 1..arity {
+                    args.push((i as i64 + 1).to_string());
+                    vals_t.push(i as i64 + 1);
+                }
+                match nat.run(&exe, &args) {
+                    Ok(run) => {
+                        let expected_out: String = vals_t.iter().map(|v| format!("{v}\n")).collect();
+                        let result = vals_t[arity - 1].wrapping_add(1);
+                        if run.stdout != expected_out.as_bytes() || run.status != Some((result & 0xff) as i32) {
+                            rep.violation(
+                                format!("echo/arity{arity}/spelling"),
+                                format!("arguments {args:?} arrived as {:?} (status {:?}); expected {expected_out:?}", String::from_utf8_lossy(&run.stdout), run.status),
+                                json!({"kind": "echo", "arity": arity, "args": args}),
+                            );
+                        } else {
+                            rep.count("argument_tuples_ok", 1);
+                        }
+                    }
+                    Err(e) => rep.machinery(e),
+                }
+            }
+        }
         // every wrong argument count 0..7
         for given in 0..=7usize {
             if given == arity {
